@@ -200,3 +200,10 @@ func equalStrings(a, b []string) bool {
 	}
 	return true
 }
+
+func maxI(a, b int) int {
+	if a > b {
+		return a
+	}
+	return b
+}
